@@ -306,7 +306,8 @@ def scen_async_record(cfg):
             faithful += _same(V, r.state, ss.state if flags["state"] else None)
             faithful += _same(V, r.inputs, dict(ss.inputs) if flags["inputs"] else None)
             faithful += _same(V, r.output, ("output", "n", k) if flags["output"] else None)
-            faithful += _same(V, r.eps, 0)
+            # the episode number: what the record says, what the step was handed and what its messages are stamped with are one and the same
+            faithful += _same(V, r.eps, ss.eps) + _same(V, r.sent.eps, ss.eps)
         # the same episode with recording off
         cfg_off = dict(cfg, record_setting=dict(rng=False, inputs=False, state=False, output=False), max_records=20000)
         node2, rec2, obs2, inp2 = c04.build(V, cfg_off)
@@ -375,6 +376,9 @@ def async_configs(tier):
             for nb, nnb in (((1, 1),) if tier == "quick" else ((0, 0), (1, 0), (1, 1))):
                 out.append(dict(rate=10, scheduling="frequency", advance=False, n_blocking=nb, n_nonblocking=nnb, nticks=2 if tier == "quick" else 3, groups=True,
                                 record_setting=dict(zip(("rng", "inputs", "state", "output"), fl)), max_records=mr))
+    # the graph state handed to reset() carries its own eps field (0 from init(), or a user's starting_eps), the runtime counts episodes itself
+    out.append(dict(rate=10, scheduling="frequency", advance=False, n_blocking=1, n_nonblocking=1, nticks=2, groups=True,
+                    record_setting=dict(rng=True, inputs=True, state=True, output=True), max_records=20000, gs_eps=3))
     out += [dict(scen="selrecord", nq=3, k=3, window=2, blocking=False, max_records=1), dict(scen="selrecord", nq=3, k=2, window=1, blocking=True, max_records=2, prerecorded=2),
             dict(scen="selrecord", nq=2, k=2, window=1, blocking=False, max_records=5, prerecorded=4)]
     out += [dict(scen="getrecord", seq_in=[0, 0, 1, 2, 2, 3], last=1), dict(scen="getrecord", seq_in=[0, 1, 2], last=2), dict(scen="getrecord", seq_in=[0, 1, 2], last=0)]
